@@ -235,3 +235,17 @@ Definition seg_delta (s : rseg) : Z * Z :=
   match s with RM a b | RL a b => (a, b) | RC a b c d e f => (a + c + e, b + d + f) end.
 Fixpoint total_delta (l : list rseg) : Z * Z :=
   match l with [] => (0, 0) | s :: r => let '(x, y) := seg_delta s in let '(u, v) := total_delta r in (x + u, y + v) end.
+
+(* ================= specializeCommands with generalizeFirst=True, on lists of arbitrary path commands =================
+   generalizeCommands (every command through _GeneralizerDecombinerCommandsMap, a ValueError propagates), then phases 1-6.
+   The generalised commands are handed to [specialize] as the segments they draw: for commands in generalised form that is
+   the identity (one rmoveto / rlineto / rrcurveto per segment). *)
+Fixpoint generalize_all (cs : list cmd) : Res (list cmd) :=
+  match cs with
+  | [] => Ok []
+  | (o, a) :: r => let* x := generalize o a in let* y := generalize_all r in Ok (x ++ y)
+  end.
+Definition specialize_commands (pt : bool) (ms : Z) (cs : list cmd) : Res (list cmd) :=
+  let* g := generalize_all cs in
+  let* segs := interp_all g in
+  Ok (specialize pt ms segs).
